@@ -46,7 +46,7 @@ class C18(Prop):
     floors = {'quick': (300, 80), 'thorough': (5000, 1500)}
     must_reach = ['offline/ast_visitor:StlDiscreteTimeOfflineAstVisitor.visitTimedOnce']
     quick_cases = 2400
-    thorough_cases = 300000
+    thorough_cases = 1200000
     shrink_data = False
 
     def gen_dense(self, rng):
